@@ -2,7 +2,7 @@
    A case carries the statement specification, the text pypika produced for it (builder calls issued in some legal
    order) and the verdict of the SQLite differential (0 = not judged, 1 = same rows as the explicit reference,
    2 = engine error or different rows, known alias-binding / integer-division findings excluded). *)
-From PV Require Import Base Crit gen.TermsTable Terms Page gen.QueryTable Query QueryCorr Parse C02Model C02Expected C02Frag gen.C04Table Select.
+From PV Require Import Base Crit gen.TermsTable Terms Page gen.QueryTable Query QueryCorr Parse C02Model C02Frag gen.C04Table Select.
 Local Open Scope string_scope.
 
 Definition c04_case := (query * string * nat)%type.
